@@ -182,3 +182,95 @@ pub proof fn lemma_server_history(steps: Seq<SStep>)
         assert(count(h.accepted, id) == count(h.answered, id) + count_ended(h.ended, id) + if h.view.contains_key(id) { 1nat } else { 0nat });
     }
 }
+
+// ---- dropping the table (the channel went away) as history steps (C09 / C04 / C11) ----
+// `Drop for InFlightRequests` is proved (from its real body, rule R17) to satisfy `aborted_all`: the log grows by exactly one
+// Abort per tracked entry, on that entry's handle. The lemma below shows that, for the history, this is the sequence of
+// `Expire` steps over everything still tracked: every request the channel had accepted and not yet answered ends by the
+// "handler aborted" route, exactly once, and the invariant `sinv` (each accepted request ends by exactly one route; the
+// aborted handles are exactly those of the requests that ended unanswered) holds for the final history, in which nothing is
+// tracked any more.
+pub open spec fn drop_steps(order: Seq<u64>) -> Seq<SStep> {
+    Seq::new(order.len(), |i: int| SStep::Expire { id: order[i] })
+}
+pub open spec fn srun_from(h: SHist, steps: Seq<SStep>) -> SHist
+    decreases steps.len()
+{
+    if steps.len() == 0 { h } else { sapply(srun_from(h, steps.drop_last()), steps.last()) }
+}
+pub proof fn lemma_drop_is_steps(h: SHist, l1: Seq<SEffect>, order: Seq<u64>, k: int)
+    requires sinv(h), aborted_all(h.view, h.log, l1, order), 0 <= k <= order.len()
+    ensures ({
+        let hk = srun_from(h, drop_steps(order).take(k));
+        &&& sinv(hk)
+        &&& hk.log == l1.take(h.log.len() + k)
+        &&& forall|id: u64| #[trigger] hk.view.contains_key(id) <==> (h.view.contains_key(id) && !order.take(k).contains(id))
+        &&& forall|id: u64| #[trigger] hk.view.contains_key(id) ==> hk.view[id] == h.view[id]
+    })
+    decreases k
+{
+    let steps = drop_steps(order);
+    if k == 0 {
+        assert(steps.take(0).len() == 0);
+        assert(l1.take(h.log.len() as int) =~= h.log);
+        assert(order.take(0).len() == 0);
+    } else {
+        lemma_drop_is_steps(h, l1, order, k - 1);
+        let pre = order.take(k - 1);
+        let cur = order.take(k);
+        let hp = srun_from(h, steps.take(k - 1));
+        let s = steps[k - 1];
+        let id = order[k - 1];
+        assert(steps.take(k).drop_last() =~= steps.take(k - 1));
+        assert(steps.take(k).last() == s);
+        assert(srun_from(h, steps.take(k)) == sapply(hp, s));
+        assert(h.view.contains_key(id));
+        assert(!pre.contains(id)) by {
+            if pre.contains(id) {
+                let j = choose|j: int| 0 <= j < pre.len() && #[trigger] pre[j] == id;
+                assert(order[j] == order[k - 1]);
+            }
+        }
+        assert(hp.view.contains_key(id));
+        assert(sadmissible(hp, s));
+        lemma_sapply_preserves_inv(hp, s);
+        let hk = sapply(hp, s);
+        let at = h.log.len() + (k - 1);
+        assert(hk.log =~= l1.take(h.log.len() + k)) by {
+            assert(l1.take(h.log.len() + k) =~= l1.take(at).push(l1[at]));
+        }
+        assert(cur =~= pre.push(id));
+        assert forall|x: u64| #[trigger] hk.view.contains_key(x) <==> (h.view.contains_key(x) && !cur.contains(x)) by {
+            if x == id {
+                assert(cur[k - 1] == id);
+            } else if cur.contains(x) {
+                let j = choose|j: int| 0 <= j < cur.len() && #[trigger] cur[j] == x;
+                assert(pre[j] == x);
+            } else if pre.contains(x) {
+                let j = choose|j: int| 0 <= j < pre.len() && #[trigger] pre[j] == x;
+                assert(cur[j] == x);
+            }
+        }
+    }
+}
+/// C09 / C04 / C11 when a channel is dropped: every request still tracked ends by the aborted route, once; nothing stays tracked.
+pub proof fn lemma_table_drop(h: SHist, l1: Seq<SEffect>, order: Seq<u64>)
+    requires sinv(h), aborted_all(h.view, h.log, l1, order)
+    ensures ({
+        let h2 = srun_from(h, drop_steps(order));
+        sinv(h2) && h2.log == l1 && h2.view =~= Map::<u64, SEntry>::empty()
+    })
+{
+    let steps = drop_steps(order);
+    lemma_drop_is_steps(h, l1, order, order.len() as int);
+    assert(steps.take(order.len() as int) =~= steps);
+    assert(l1.take((h.log.len() + order.len()) as int) =~= l1);
+    let h2 = srun_from(h, steps);
+    assert forall|x: u64| !h2.view.contains_key(x) by {
+        if h.view.contains_key(x) {
+            let i = choose|i: int| 0 <= i < order.len() && #[trigger] order[i] == x;
+            let all = order.take(order.len() as int);
+            assert(all[i] == x);
+        }
+    }
+}
